@@ -140,20 +140,62 @@ def cpp_facts():
     return facts
 
 
+def _is_set_expr(node, set_names):
+    if isinstance(node, (ast.Set, ast.SetComp)):
+        return True
+    if isinstance(node, ast.Call) and isinstance(node.func, ast.Name) and node.func.id in ("set", "frozenset"):
+        return True
+    if isinstance(node, ast.Name) and node.id in set_names:
+        return True
+    if isinstance(node, ast.BinOp) and isinstance(node.op, (ast.Sub, ast.BitOr, ast.BitAnd, ast.BitXor)):
+        return _is_set_expr(node.left, set_names) or _is_set_expr(node.right, set_names)
+    if isinstance(node, ast.Call) and isinstance(node.func, ast.Attribute) and node.func.attr in ("union", "intersection", "difference", "symmetric_difference"):
+        return _is_set_expr(node.func.value, set_names)
+    return False
+
+
+def _order_insensitive(stmts):
+    """loop bodies whose effect does not depend on the iteration order: only set add / remove / discard calls,
+    possibly under `if`s without else-side effects of another kind"""
+    for st in stmts:
+        if isinstance(st, ast.If):
+            if not (_order_insensitive(st.body) and _order_insensitive(st.orelse)):
+                return False
+        elif isinstance(st, ast.Expr) and isinstance(st.value, ast.Call) and isinstance(st.value.func, ast.Attribute) \
+                and st.value.func.attr in ("add", "remove", "discard"):
+            continue
+        elif isinstance(st, ast.Pass):
+            continue
+        else:
+            return False
+    return True
+
+
 def set_sites_sorted():
-    """C06: every loop over one of the type-name *sets* in the language back ends iterates
-    `sorted(<set>)`.  Returns (all sorted?, number of sites)."""
-    names = {"setOfClasses", "setOfProjectDependencies"}
+    """C06: no loop of the generator iterates a set in hash order: every `for` / comprehension over a set-valued
+    expression (a `set(...)` call, set literal / comprehension, set algebra, or a name bound to one in the module)
+    goes through `sorted(...)`.  Returns (all sorted and at least one site, number of sites)."""
     n_sorted = n_raw = 0
-    for mod in ("LanguageCPP.py", "LanguageCsharp.py"):
-        tree = ast.parse(open(os.path.join(KOJEN, mod)).read())
+    for mod in sorted(f for f in os.listdir(KOJEN) if f.endswith(".py")):
+        try:
+            tree = ast.parse(open(os.path.join(KOJEN, mod)).read())
+        except SyntaxError:
+            continue
+        set_names = {"setOfClasses", "setOfProjectDependencies"} if mod in ("LanguageCPP.py", "LanguageCsharp.py") else set()
+        for node in ast.walk(tree):
+            if isinstance(node, ast.Assign) and _is_set_expr(node.value, set()):
+                for t in node.targets:
+                    if isinstance(t, ast.Name):
+                        set_names.add(t.id)
         for node in ast.walk(tree):
             if isinstance(node, (ast.For, ast.comprehension)):
                 it = node.iter
-                if isinstance(it, ast.Name) and it.id in names:
+                if _is_set_expr(it, set_names):
+                    if isinstance(node, ast.For) and _order_insensitive(node.body):
+                        continue        # e.g. `for i in a: if i in b: b.remove(i)`: a set difference
                     n_raw += 1
                 elif (isinstance(it, ast.Call) and isinstance(it.func, ast.Name) and it.func.id == "sorted" and it.args
-                      and isinstance(it.args[0], ast.Name) and it.args[0].id in names):
+                      and _is_set_expr(it.args[0], set_names)):
                     n_sorted += 1
     return (n_raw == 0 and n_sorted > 0), n_sorted + n_raw
 
